@@ -3,6 +3,7 @@ import SlocModel.Driver.Threshold
 import SlocModel.Driver.Counter
 import SlocModel.Driver.Toml
 import SlocModel.Driver.Trend
+import SlocModel.Driver.Baseline
 open SlocModel.Driver
 
 def dispatch (line : String) : String :=
@@ -23,6 +24,7 @@ def dispatch (line : String) : String :=
       | "retain" => handleRetain args
       | "trend-delta" => handleTrendDelta args
       | "duration" => handleDuration args
+      | "baseline-step" => handleBaselineStep args
       | "extends" => handleExtends args
       | "merge" => handleMerge args
       | "finish" => handleFinish args
